@@ -4,6 +4,9 @@ import (
 	"fmt"
 	"go/ast"
 	"go/token"
+	"os"
+	"path/filepath"
+	"regexp"
 	"strings"
 )
 
@@ -589,5 +592,60 @@ structure Plan where
 	}
 	sb.WriteString("]\n\n")
 	c.facts["C12.sigRules"] = rules
+
+	// transaction signer of the confirm messages (proto option cosmos.msg.v1.signer), and the MsgConfirm wrapper
+	signers := c.c12ProtoSigners([]string{"MsgOracleSetConfirm", "MsgConfirmBatch", "MsgBridgeCallConfirm", "MsgConfirm"})
+	sb.WriteString("/-- `option (cosmos.msg.v1.signer)` of the confirm messages in proto/fx/gravity/crosschain/v1/tx.proto: the field whose\naccount must have signed the transaction -/\ndef confirmSigners : List (String × String) := [")
+	for i, kv := range signers {
+		if i > 0 {
+			sb.WriteString(", ")
+		}
+		fmt.Fprintf(&sb, "(%s, %s)", leanStr(kv[0]), leanStr(kv[1]))
+	}
+	sb.WriteString("]\n\n")
+	c.facts["C12.confirmSigners"] = signers
+	unpack := c.findFunc("x/crosschain/types", "MsgConfirm", "UnpackInterfaces") != nil
+	fmt.Fprintf(&sb, "/-- does `MsgConfirm` implement `UnpackInterfaces` (without it the inner `Any` of a decoded transaction has no cached\nvalue and `MsgServer.Confirm` rejects every transaction) -/\ndef msgConfirmUnpacks : Bool := %v\n\n", unpack)
+	var wg []string
+	if fd := c.findFunc("x/crosschain/keeper", "MsgServer", "Confirm"); fd != nil && fd.Body != nil {
+		ast.Inspect(fd.Body, func(n ast.Node) bool {
+			if is, ok := n.(*ast.IfStmt); ok {
+				wg = append(wg, "if "+solWS.ReplaceAllString(c.src(is.Cond), " "))
+			}
+			return true
+		})
+	}
+	fmt.Fprintf(&sb, "/-- `if` conditions of `MsgServer.Confirm` (the wrapper): nothing compares the wrapper's bridger with the inner one -/\ndef wrapperGuards : List String := %s\n\n", c12LeanStrs(wg))
+	c.facts["C12.msgConfirmUnpacks"] = unpack
 	return sb.String()
+}
+
+var protoMsgRe = regexp.MustCompile(`message\s+(\w+)\s*\{`)
+var protoSignerRe = regexp.MustCompile(`option\s*\(cosmos\.msg\.v1\.signer\)\s*=\s*"(\w+)"`)
+
+func (c *ctxT) c12ProtoSigners(msgs []string) [][2]string {
+	var out [][2]string
+	bz, err := os.ReadFile(filepath.Join(c.repo, "proto", "fx", "gravity", "crosschain", "v1", "tx.proto"))
+	if err != nil {
+		return out
+	}
+	found := map[string]string{}
+	src := string(bz)
+	for _, m := range protoMsgRe.FindAllStringSubmatchIndex(src, -1) {
+		open := m[1] - 1
+		cl := matchParen(src, open)
+		if cl < 0 {
+			continue
+		}
+		name := src[m[2]:m[3]]
+		if sm := protoSignerRe.FindStringSubmatch(src[open:cl]); sm != nil {
+			found[name] = sm[1]
+		} else {
+			found[name] = ""
+		}
+	}
+	for _, n := range msgs {
+		out = append(out, [2]string{n, found[n]})
+	}
+	return out
 }
